@@ -16,7 +16,7 @@
 
 using namespace vf;
 
-struct Res { bool ok = true; std::string cls, msg, nt, desc; };
+struct Res { bool ok = true; bool decoy = false; std::string cls, msg, nt, desc; };
 
 // ---------------------------------------------------------------- Gauss-Legendre panels
 struct MonoPar { int k; int calls; };
@@ -44,11 +44,14 @@ static Res case_dgmlt(Rng & r)
   char d[200];
   if (which <= 2) {
     MonoPar mp{k, 0};
+    // decoy call: the same routine with the SAME visible arguments but another parameter block immediately before (a result remembered per
+    // argument list, or work arrays kept between calls, would leak into the call under test; the oracle stays the mathematical contract)
+    if (r.chance(0.3)) { MonoPar dp{(k + 1 + r.range(0, kmax - 1)) % (kmax + 1), 0}; double xd[2] = {0, 0}; (void)(which == 1 ? bxdecay0::decay0_dgmlt1(fsub_mono, a, b, ni, ng, xd, &dp) : bxdecay0::decay0_dgmlt2(fsub_mono, a, b, ni, ng, xd, &dp)); res.decoy = true; }
     double got = which == 1 ? bxdecay0::decay0_dgmlt1(fsub_mono, a, b, ni, ng, x, &mp) : bxdecay0::decay0_dgmlt2(fsub_mono, a, b, ni, ng, x, &mp);
     double want = mono_int(k, a, b), sc = mono_absint(k, std::min(a, b), std::max(a, b));
     snprintf(d, sizeof d, "dgmlt%d x^%d on [%.6g,%.6g] NI=%d NG=%d", which, k, a, b, ni, ng); res.desc = d;
     if (std::fabs(got - want) > 1e-13 * sc + 1e-300) { res.ok = false; res.cls = std::string("dgmlt") + std::to_string(which) + "-exactness-NG" + std::to_string(ng); res.msg = res.desc + ": got " + jnum(got) + " want " + jnum(want) + " (rel.err " + jnum(std::fabs(got - want) / sc) + ")"; }
-    res.nt = std::string("dgmlt") + std::to_string(which) + "|NG" + std::to_string(ng) + "|k" + std::to_string(k) + "|NI" + std::to_string(std::min(ni, 4));
+    res.nt = std::string("dgmlt") + std::to_string(which) + "|NG" + std::to_string(ng) + "|k" + std::to_string(k) + "|NI" + std::to_string(std::min(ni, 4)) + (res.decoy ? "|after-decoy" : "");
   } else {
     NestPar np; np.k1 = r.range(0, kmax); int ng2 = r.chance(0.5) ? 8 : 6; np.k2 = r.range(0, 2 * ng2 - 1); np.a2 = r.uniform(0, 1); np.b2 = np.a2 + r.uniform(0.1, 2); np.ni2 = r.range(1, 16); np.ng2 = ng2;
     double a1 = r.uniform(0, 1), b1 = a1 + r.uniform(0.1, 2);
@@ -101,11 +104,12 @@ static Res case_gauss(Rng & r)
   // the tolerance asked for is RELATIVE: the contract is scale invariant.  Half of the cases multiply the integrand by 10^U(-30,6)
   // (the library's own integrands - phase-space densities - are far from O(1))
   int sdec = 0; if (r.chance(0.5)) { sdec = r.range(-30, 6); f.scale = std::pow(10.0, sdec) * r.uniform(1, 10); }
+  if (r.chance(0.3)) { FamPar d2 = f; d2.p1 = f.p1 * r.uniform(1.2, 2); d2.p2 = f.p2 * r.uniform(0.5, 0.9); d2.scale = f.scale * r.uniform(2, 9); for (auto & cf : d2.coef) cf *= r.uniform(0.3, 3); (void)bxdecay0::decay0_gauss(fam_f, a, b, eps, &d2); res.decoy = true; } // decoy: same (f, a, b, eps), other parameter block
   double want = fam_I(f, a, b), got = bxdecay0::decay0_gauss(fam_f, a, b, eps, &f);
   static const char * fn[] = {"polynomial", "exp", "offset+sin", "gaussian", "lorentzian"};
   char d[200]; snprintf(d, sizeof d, "decay0_gauss %s (x %.3g) on [%.5g,%.5g] eps=%g", fn[f.fam], f.scale, a, b, eps); res.desc = d;
   if (!(std::fabs(got - want) <= eps * std::fabs(want) + 1e-15 * std::fabs(want))) { res.ok = false; res.cls = std::string("gauss-tolerance-") + fn[f.fam]; res.msg = res.desc + ": got " + jnum(got) + " want " + jnum(want) + " rel.err " + jnum(std::fabs(got - want) / std::fabs(want)); }
-  res.nt = std::string("gauss|") + fn[f.fam] + "|eps" + std::to_string((int)std::lround(-std::log10(eps))) + (f.scale == 1.0 ? "|unscaled" : "|scale1e" + std::to_string(sdec / 6 * 6));
+  res.nt = std::string("gauss|") + fn[f.fam] + "|eps" + std::to_string((int)std::lround(-std::log10(eps))) + (f.scale == 1.0 ? "|unscaled" : "|scale1e" + std::to_string(sdec / 6 * 6)) + (res.decoy ? "|after-decoy" : "");
   return res;
 }
 
@@ -118,11 +122,12 @@ static Res case_tsimpr(Rng & r)
   // it accepts the call, the value it returns is Simpson's sum over [a,b] and must still be exact for cubics; a refusal is fine
   bool off_grid = r.chance(0.3); if (off_grid) b = a + (4 * quads + r.uniform(-0.2, 1.7)) * h;
   double got, want = fam_I(f, a, b);
+  if (r.chance(0.3)) { FamPar d2 = f; for (auto & cf : d2.coef) cf = r.uniform(-2, 2); try { (void)bxdecay0::decay0_tsimpr(fam_f, a, b, h, &d2); } catch (std::exception &) {} res.decoy = true; } // decoy: same (f, a, b, h), other parameter block
   try { got = bxdecay0::decay0_tsimpr(fam_f, a, b, h, &f); } catch (std::exception &) { res.nt = "tsimpr|refused-step-count"; res.desc = "tsimpr refused"; return res; }
   double sc = 0; for (size_t i = 0; i < f.coef.size(); i++) sc += std::fabs(f.coef[i]) * std::pow(std::max(std::fabs(a), std::fabs(b)), i) * (b - a);
   char d[160]; snprintf(d, sizeof d, "tsimpr degree %d on [%.5g,%.5g] h=%.4g", deg, a, b, h); res.desc = d;
   if (std::fabs(got - want) > 1e-12 * sc + 1e-300) { res.ok = false; res.cls = "tsimpr-cubic-exactness"; res.msg = res.desc + ": got " + jnum(got) + " want " + jnum(want); }
-  res.nt = "tsimpr|deg" + std::to_string(deg) + "|q" + std::to_string(std::min(quads, 5)) + (off_grid ? "|near-4q" : "");
+  res.nt = "tsimpr|deg" + std::to_string(deg) + "|q" + std::to_string(std::min(quads, 5)) + (off_grid ? "|near-4q" : "") + (res.decoy ? "|after-decoy" : "");
   return res;
 }
 
@@ -140,12 +145,13 @@ static Res case_tgold(Rng & r)
   int minmax = r.range(1, 2); u.sign = minmax == 2 ? 1 : -1; // the families have a maximum at c; flipped for minimum search
   double eps = L * std::pow(10.0, -r.uniform(2, 5)); double xe = 0, fe = 0;
   if (u.fam == 3) u.w = L / 2.5; // |x-c|/w < pi within the interval: unimodal
+  if (r.chance(0.3)) { UniPar d2 = u; d2.c = a + r.uniform(0.02, 0.98) * L; double xd = 0, fd = 0; bxdecay0::decay0_tgold(a, 0.5 * (a + b), b, uni_f, eps, minmax, xd, fd, &d2); res.decoy = true; } // decoy: same (a, b, c, f, eps, minmax), extremum elsewhere
   bxdecay0::decay0_tgold(a, 0.5 * (a + b), b, uni_f, eps, minmax, xe, fe, &u);
   static const char * fn[] = {"parabola", "gaussian", "abs", "cos"};
   char d[200]; snprintf(d, sizeof d, "tgold %s %s on [%.5g,%.5g] extremum at %.6g eps=%.3g", minmax == 2 ? "max" : "min", fn[u.fam], a, b, u.c, eps); res.desc = d;
   if (!(std::fabs(xe - u.c) <= eps)) { res.ok = false; res.cls = std::string("tgold-") + fn[u.fam]; res.msg = res.desc + ": returned x=" + jnum(xe) + " |x-x*|=" + jnum(std::fabs(xe - u.c)); }
   else if (fe != uni_f(xe, &u)) { res.ok = false; res.cls = "tgold-fextr"; res.msg = res.desc + ": fextr is not f(xextr)"; }
-  res.nt = std::string("tgold|") + fn[u.fam] + "|" + (minmax == 2 ? "max" : "min");
+  res.nt = std::string("tgold|") + fn[u.fam] + "|" + (minmax == 2 ? "max" : "min") + (res.decoy ? "|after-decoy" : "");
   return res;
 }
 
